@@ -53,6 +53,11 @@ def _(e, c, a): return a[0]
 @model(r'^tokio::time::sleep$|tokio::time::sleep::sleep$|^sleep$|tokio::time::delay_for$', front=False)
 def _(e, c, a):
     e.events.append(('sleep', a[0]))
+    n = e.notes.get('sleeps', 0) + 1; e.notes['sleeps'] = n
+    lim = getattr(e, 'sleep_budget', None)
+    if lim is not None and n > lim:
+        # a retry loop that keeps sleeping without an exit in sight: its duration is not bounded by the request
+        raise Budget('loop budget: more than %d timer sleeps while handling one request (retry loop without exit)' % lim)
     return ReadyUnit()
 
 
